@@ -465,66 +465,191 @@ func runR203(c *core.Ctx) {
 	c.Check(okNil, "codegen/types", "(*Typeref).GenerateCode", "custom typerefs produce no code file", fd.Pos(), "", "GenerateCode does not return nil first for custom typerefs: a generated file would shadow the user's implementation")
 }
 
+// cleanerComponent returns CleanTargetDir and the package-level functions of its package that lie on a call cycle with
+// it (the cleaner written as several mutually recursive functions), root first.
+func cleanerComponent(c *core.Ctx, rel string, root *types.Func) []*ast.FuncDecl {
+	inf := info(c, rel)
+	declOf := map[*types.Func]*ast.FuncDecl{}
+	for _, fd := range c.M.FuncDecls(rel) {
+		if f, _ := inf.Defs[fd.Name].(*types.Func); f != nil && fd.Body != nil {
+			declOf[f] = fd
+		}
+	}
+	callees := func(fd *ast.FuncDecl) []*types.Func {
+		var out []*types.Func
+		ast.Inspect(fd.Body, func(n ast.Node) bool {
+			if call, ok := n.(*ast.CallExpr); ok {
+				if f := core.Callee(inf, call); f != nil && declOf[f.Origin()] != nil {
+					out = append(out, f.Origin())
+				}
+			}
+			return true
+		})
+		return out
+	}
+	fwd := map[*types.Func]bool{root: true}
+	work := []*types.Func{root}
+	for len(work) > 0 {
+		f := work[0]
+		work = work[1:]
+		for _, g := range callees(declOf[f]) {
+			if !fwd[g] {
+				fwd[g] = true
+				work = append(work, g)
+			}
+		}
+	}
+	// of those, the ones that reach the root again
+	back := map[*types.Func]bool{root: true}
+	for changed := true; changed; {
+		changed = false
+		for f := range fwd {
+			if back[f] {
+				continue
+			}
+			for _, g := range callees(declOf[f]) {
+				if back[g] {
+					back[f] = true
+					changed = true
+					break
+				}
+			}
+		}
+	}
+	out := []*ast.FuncDecl{declOf[root]}
+	for _, fd := range c.M.FuncDecls(rel) {
+		if f, _ := inf.Defs[fd.Name].(*types.Func); f != nil && f != root && fwd[f] && back[f] {
+			out = append(out, fd)
+		}
+	}
+	return out
+}
+
+// descent is a call, somewhere in the cleaner, that hands a directory entry (join(dir, entry.Name())) to a function of
+// the cleaner: the recursion into a sub-directory.
+type descent struct {
+	in     *ast.FuncDecl
+	call   *ast.CallExpr
+	entry  types.Object
+	target ast.Node // body of the function or closure called
+	par    map[ast.Node]ast.Node
+}
+
+func cleanerDescents(c *core.Ctx, rel string, comp []*ast.FuncDecl) []descent {
+	inf := info(c, rel)
+	bodyOf := map[*types.Func]*ast.FuncDecl{}
+	for _, fd := range comp {
+		if f, _ := inf.Defs[fd.Name].(*types.Func); f != nil {
+			bodyOf[f] = fd
+		}
+	}
+	var out []descent
+	for _, fd := range comp {
+		par := core.Parents(fd)
+		closures := localClosures(inf, fd)
+		ast.Inspect(fd.Body, func(n ast.Node) bool {
+			call, ok := n.(*ast.CallExpr)
+			if !ok {
+				return true
+			}
+			var target ast.Node
+			if f := core.Callee(inf, call); f != nil && bodyOf[f.Origin()] != nil {
+				target = bodyOf[f.Origin()].Body
+			} else if id, ok := core.Unparen(call.Fun).(*ast.Ident); ok {
+				if fl := closures[inf.Uses[id]]; fl != nil {
+					target = fl.Body
+				}
+			}
+			if target == nil {
+				return true
+			}
+			for _, a := range call.Args {
+				var entry types.Object
+				if id, ok := core.Unparen(a).(*ast.Ident); ok {
+					entry = joinOfEntryName(inf, fd, core.ObjOf(inf, id))
+				} else if j, ok := core.Unparen(a).(*ast.CallExpr); ok && core.IsFunc(core.Callee(inf, j), "path/filepath", "Join") && len(j.Args) >= 2 {
+					if nc, ok := core.Unparen(j.Args[len(j.Args)-1]).(*ast.CallExpr); ok {
+						if sel, ok := core.Unparen(nc.Fun).(*ast.SelectorExpr); ok && sel.Sel.Name == "Name" {
+							entry = core.ObjOf(inf, sel.X)
+						}
+					}
+				}
+				if entry != nil {
+					out = append(out, descent{in: fd, call: call, entry: entry, target: target, par: par})
+					break
+				}
+			}
+			return true
+		})
+	}
+	return out
+}
+
+func (d descent) underIsDir(inf *types.Info) bool {
+	return core.GuardedByFact(inf, d.par, core.EnclosingStmt(d.par, d.call), func(fa core.Fact) bool {
+		hc, ok := core.Unparen(fa.Expr).(*ast.CallExpr)
+		if !ok || !fa.Val {
+			return false
+		}
+		sel, ok := core.Unparen(hc.Fun).(*ast.SelectorExpr)
+		return ok && sel.Sel.Name == "IsDir" && core.ObjOf(inf, sel.X) == d.entry
+	}, nil)
+}
+
 func runR204(c *core.Ctx) {
 	const rel = "codegen/utils"
 	inf := info(c, rel)
 	cf, fd := mustDecl(c, rel, "CleanTargetDir")
-	par := core.Parents(fd)
+	comp := cleanerComponent(c, rel, cf)
 	rec, okRec := 0, true
-	ast.Inspect(fd.Body, func(n ast.Node) bool {
-		call, ok := n.(*ast.CallExpr)
-		if !ok {
-			return true
-		}
-		f := core.Callee(inf, call)
-		isRec := f == cf
-		if id, ok := core.Unparen(call.Fun).(*ast.Ident); ok && !isRec {
-			// the local closure cleanTargetDir called from inside itself
-			if v, ok := core.ObjOf(inf, id).(*types.Var); ok {
-				if _, isSig := v.Type().Underlying().(*types.Signature); isSig {
-					if fl := enclosingFuncLit(par, call); fl != nil {
-						isRec = true
-					}
-				}
-			}
-		}
-		if !isRec || enclosingFuncLit(par, call) == nil {
-			return true
-		}
+	for _, d := range cleanerDescents(c, rel, comp) {
 		rec++
-		g := core.GuardedByFact(inf, par, core.EnclosingStmt(par, call), func(fa core.Fact) bool {
-			hc, ok := core.Unparen(fa.Expr).(*ast.CallExpr)
-			if !ok || !fa.Val {
-				return false
-			}
-			sel, ok := core.Unparen(hc.Fun).(*ast.SelectorExpr)
-			return ok && sel.Sel.Name == "IsDir"
-		}, nil)
-		if !g {
+		if !d.underIsDir(inf) {
 			okRec = false
 		}
-		return true
-	})
+	}
 	c.Check(rec > 0 && okRec, rel, "CleanTargetDir", "recursion only into entries that are directories", fd.Pos(), "", fmt.Sprintf("%d recursive calls, all under IsDir(): %v", rec, okRec))
-	// the listing is re-read after the cleaning loop
-	reads := 0
-	var loopEnd token.Pos
-	ast.Inspect(fd.Body, func(n ast.Node) bool {
-		if rs, ok := n.(*ast.RangeStmt); ok && loopEnd == 0 {
-			loopEnd = rs.End()
+	// the listing is re-read after the cleaning loop: in every function (or closure) of the cleaner that loops over a
+	// directory listing, os.ReadDir is called again after the loop
+	loops, stale := 0, 0
+	isReadDir := func(e ast.Expr) bool {
+		call, ok := core.Unparen(e).(*ast.CallExpr)
+		if !ok {
+			return false
 		}
-		return true
-	})
-	ast.Inspect(fd.Body, func(n ast.Node) bool {
-		if call, ok := n.(*ast.CallExpr); ok {
-			f := core.Callee(inf, call)
-			if (core.IsFunc(f, "os", "ReadDir") || core.IsFunc(f, "io/ioutil", "ReadDir")) && call.Pos() > loopEnd && loopEnd != 0 {
-				reads++
+		f := core.Callee(inf, call)
+		return core.IsFunc(f, "os", "ReadDir") || core.IsFunc(f, "io/ioutil", "ReadDir")
+	}
+	for _, cfd := range comp {
+		listings := map[types.Object]bool{}
+		ast.Inspect(cfd.Body, func(n ast.Node) bool {
+			if as, ok := n.(*ast.AssignStmt); ok && len(as.Rhs) == 1 && len(as.Lhs) >= 1 && isReadDir(as.Rhs[0]) {
+				if o := core.ObjOf(inf, as.Lhs[0]); o != nil {
+					listings[o] = true
+				}
 			}
-		}
-		return true
-	})
-	c.Check(reads > 0, rel, "CleanTargetDir", "directory is re-listed after cleaning before it may be removed", fd.Pos(), "", "the emptiness test after the loop uses the stale listing")
+			return true
+		})
+		ast.Inspect(cfd.Body, func(n ast.Node) bool {
+			rs, ok := n.(*ast.RangeStmt)
+			if !ok || !(listings[core.ObjOf(inf, rs.X)] || isReadDir(rs.X)) {
+				return true
+			}
+			loops++
+			reads := 0
+			ast.Inspect(cfd.Body, func(m ast.Node) bool {
+				if e, ok := m.(ast.Expr); ok && isReadDir(e) && e.Pos() > rs.End() {
+					reads++
+				}
+				return true
+			})
+			if reads == 0 {
+				stale++
+			}
+			return true
+		})
+	}
+	c.Check(loops > 0 && stale == 0, rel, "CleanTargetDir", "directory is re-listed after cleaning before it may be removed", fd.Pos(), "", "the emptiness test after the loop uses the stale listing")
 }
 
 func enclosingFuncLit(par map[ast.Node]ast.Node, n ast.Node) *ast.FuncLit {
